@@ -1,1 +1,262 @@
-(* to be filled *)
+(* C18Link: what LdSem does with the allow-list entries and the /DISCARD/ block; every input section
+   ends up in exactly one of placed / discarded / still unplaced. *)
+From Slinky Require Import Model.Types Model.Generated Model.Runtime Model.Style Model.Script Model.Writer Model.LdSem.
+From Slinky Require Import Spec.C17 Spec.C04 Proofs.C06 Proofs.C18 Proofs.C17 Proofs.LdLemmas Proofs.C04.
+From Coq Require Import Lia ZArith Permutation.
+Local Open Scope Z_scope.
+
+(* ---------- placing ---------- *)
+
+Lemma place_markers vma sub outsec l : forall off acc c off' acc' c',
+  place vma sub outsec l off acc c = (off', acc', c') ->
+  exists new, acc' = (acc ++ new)%list /\ map pl_marker new = map u_marker l /\
+              Forall (fun p => pl_outsec p = outsec) new.
+Proof.
+  induction l as [|u r IH]; intros off acc c off' acc' c' H; simpl in H.
+  - inversion H; subst. exists []. rewrite app_nil_r. repeat split; constructor.
+  - apply IH in H. destruct H as [new [E [M F]]]. eexists (_ :: new). rewrite E, <- app_assoc. cbn [app].
+    split; [reflexivity|]. split; [cbn [map pl_marker]; rewrite M; reflexivity|]. constructor; [reflexivity|assumption].
+Qed.
+
+Lemma filter_partition_perm {A} (f : A -> bool) l :
+  Permutation l (filter f l ++ filter (fun x => negb (f x)) l).
+Proof.
+  induction l as [|a l IH]; [constructor|]. cbn [filter]. destruct (f a); cbn [negb app].
+  - constructor. exact IH.
+  - apply Permutation_cons_app. exact IH.
+Qed.
+
+(* the markers of all the input sections, wherever they are now *)
+Definition accounted (st : lstate) : list string :=
+  (map pl_marker (l_placed st) ++ l_discarded st ++ map u_marker (l_remaining st))%list.
+
+Lemma accounted_place placed disc rem pls (f : usec -> bool) :
+  map pl_marker pls = map u_marker (filter f rem) ->
+  Permutation (map pl_marker (placed ++ pls) ++ disc ++ map u_marker (filter (fun u => negb (f u)) rem))
+              (map pl_marker placed ++ disc ++ map u_marker rem).
+Proof.
+  intro M. rewrite map_app, M, <- app_assoc. apply Permutation_app_head.
+  rewrite (Permutation_app_comm (map u_marker (filter f rem))), <- app_assoc. apply Permutation_app_head.
+  rewrite <- map_app. apply Permutation_map. symmetry.
+  eapply Permutation_trans; [apply (filter_partition_perm f)|]. apply Permutation_app_comm.
+Qed.
+
+Lemma accounted_discard placed disc rem (f : usec -> bool) :
+  Permutation (map pl_marker placed ++ (disc ++ map u_marker (filter f rem)) ++
+               map u_marker (filter (fun u => negb (f u)) rem))
+              (map pl_marker placed ++ disc ++ map u_marker rem).
+Proof.
+  apply Permutation_app_head. rewrite <- app_assoc. apply Permutation_app_head.
+  rewrite <- map_app. apply Permutation_map. symmetry. apply filter_partition_perm.
+Qed.
+
+Lemma nodup_app_disjoint {A} (a b : list A) : NoDup (a ++ b) -> forall x, In x a -> ~ In x b.
+Proof.
+  induction a as [|y a IH]; intros H x Hx; [contradiction|]. cbn [app] in H. inversion H as [|? ? Hy Hr]; subst.
+  destruct Hx as [E|Hx]; [subst; intro Hb; apply Hy; apply in_or_app; right; exact Hb | apply IH; assumption].
+Qed.
+
+Section Link.
+  Variables (env : list (string * Z)) (senv : list osec) (ext : list (string * Z)) (final : bool).
+
+  Notation top := (exec_top_stmt env senv ext final).
+  Notation runl := (run env senv ext final).
+  Notation secs vma sub name := (exec_sec_stmt env senv ext final vma sub name).
+
+  Definition named (sect : string) (u : usec) : bool := String.eqb sect (u_name u).
+
+  Lemma sel_any sect u : sel true "" None sect false u = named sect u.
+  Proof. reflexivity. Qed.
+
+  (* C18_allow_placed *)
+  Theorem allow_placed st sect :
+    let st' := top st (SSingleEntry sect) in
+    let chosen := filter (named sect) (l_remaining st) in
+    l_remaining st' = filter (fun u => negb (named sect u)) (l_remaining st) /\
+    (exists pls, l_placed st' = (l_placed st ++ pls)%list /\ map pl_marker pls = map u_marker chosen /\
+                 Forall (fun p => pl_outsec p = sect) pls) /\
+    (exists o, l_secs st' = (l_secs st ++ [o])%list /\ os_name o = sect /\ os_vma o = 0 /\ os_noload o = false) /\
+    l_discarded st' = l_discarded st /\ l_syms st' = l_syms st /\ l_errors st' = l_errors st.
+  Proof.
+    cbv zeta. cbn [exec_top_stmt].
+    destruct (place 0 None sect (filter (sel true "" None sect false) (l_remaining st)) 0 [] false)
+      as [[off' pls] c] eqn:E.
+    apply place_markers in E. destruct E as [new [E [M F]]]. cbn [app] in E. subst pls.
+    cbn [l_remaining l_placed l_secs l_discarded l_syms l_errors]. repeat split.
+    - exists new. auto.
+    - eexists. repeat split.
+  Qed.
+
+  Definition hit (pats : list string) (wild : bool) (u : usec) : bool :=
+    existsb (fun p => String.eqb p (u_name u)) pats || wild.
+
+  (* C18_discard *)
+  Theorem discard st pats wild :
+    let st' := top st (SDiscard pats wild) in
+    l_discarded st' = (l_discarded st ++ map u_marker (filter (hit pats wild) (l_remaining st)))%list /\
+    l_remaining st' = filter (fun u => negb (hit pats wild u)) (l_remaining st) /\
+    l_placed st' = l_placed st /\ l_secs st' = l_secs st /\ l_syms st' = l_syms st /\
+    (wild = true -> l_remaining st' = []).
+  Proof.
+    cbv zeta. cbn [exec_top_stmt l_discarded l_remaining l_placed l_secs l_syms]. repeat split.
+    intro Hw. subst wild. induction (l_remaining st) as [|u r IH]; [reflexivity|]. cbn [filter].
+    unfold name_matches. rewrite orb_true_r. cbn [negb]. exact IH.
+  Qed.
+
+  (* ---------- every input section is in exactly one place ---------- *)
+
+  Lemma sec_stmt_accounted vma sub name ss s :
+    Permutation (accounted (s_st (secs vma sub name ss s))) (accounted (s_st ss)) /\
+    (exists new, l_placed (s_st (secs vma sub name ss s)) = (l_placed (s_st ss) ++ new)%list) /\
+    l_discarded (s_st (secs vma sub name ss s)) = l_discarded (s_st ss).
+  Proof.
+    destruct (sec_stmt_cases env senv ext final vma sub name ss s)
+      as [[p [h [r [sym [e [Es E]]]]]] | [[k [path [member [sect [wild [off' [pls [c [Es [Ep E]]]]]]]]]] | [E _]]];
+      rewrite E.
+    - cbn [s_st]. unfold accounted. rewrite assign_placed, assign_discarded, assign_remaining.
+      split; [reflexivity|]. split; [exists []; rewrite app_nil_r; reflexivity | reflexivity].
+    - cbn [s_st]. apply place_markers in Ep. destruct Ep as [new [En [M F]]]. cbn [app] in En. subst pls.
+      unfold accounted. cbn [l_placed l_discarded l_remaining]. split; [|split; [eauto|reflexivity]].
+      apply accounted_place. exact M.
+    - split; [reflexivity|]. split; [exists []; rewrite app_nil_r; reflexivity | reflexivity].
+  Qed.
+
+  Lemma sec_fold_accounted vma sub name body : forall ss,
+    Permutation (accounted (s_st (fold_left (secs vma sub name) body ss))) (accounted (s_st ss)) /\
+    (exists new, l_placed (s_st (fold_left (secs vma sub name) body ss)) = (l_placed (s_st ss) ++ new)%list) /\
+    l_discarded (s_st (fold_left (secs vma sub name) body ss)) = l_discarded (s_st ss).
+  Proof.
+    induction body as [|s body IH]; intro ss.
+    - split; [reflexivity|]. split; [exists []; rewrite app_nil_r; reflexivity | reflexivity].
+    - cbn [fold_left]. destruct (IH (secs vma sub name ss s)) as [P1 [[n1 E1] D1]].
+      destruct (sec_stmt_accounted vma sub name ss s) as [P2 [[n2 E2] D2]].
+      split; [eapply Permutation_trans; eassumption|]. split; [|congruence].
+      exists (n2 ++ n1)%list. rewrite E1, E2, app_assoc. reflexivity.
+  Qed.
+
+  (* what one statement does to the three lists: nothing leaves l_placed, l_discarded only grows, and
+     only by markers of sections that were still unplaced; the markers are merely moved around *)
+  Theorem top_accounted st s :
+    Permutation (accounted (top st s)) (accounted st) /\
+    (exists new, l_placed (top st s) = (l_placed st ++ new)%list) /\
+    (exists f, l_discarded (top st s) = (l_discarded st ++ map u_marker (filter f (l_remaining st)))%list).
+  Proof.
+    assert (Hnone : forall l : list usec, filter (fun _ : usec => false) l = []) by (induction l; auto).
+    assert (Hsame : l_placed (top st s) = l_placed st -> l_discarded (top st s) = l_discarded st ->
+                    l_remaining (top st s) = l_remaining st ->
+                    Permutation (accounted (top st s)) (accounted st) /\
+                    (exists new, l_placed (top st s) = (l_placed st ++ new)%list) /\
+                    (exists f, l_discarded (top st s) = (l_discarded st ++ map u_marker (filter f (l_remaining st)))%list)).
+    { intros E1 E2 E3. unfold accounted. rewrite E1, E2, E3. split; [reflexivity|].
+      split; [exists []; rewrite app_nil_r; reflexivity|]. exists (fun _ => false).
+      rewrite Hnone, app_nil_r. reflexivity. }
+    destruct s; try (apply Hsame; reflexivity).
+    - apply Hsame; cbn [exec_top_stmt]; destruct (String.eqb sym ".");
+        try (destruct (eval_expr env senv ext st (l_dot st) e); reflexivity);
+        [apply assign_placed | apply assign_discarded | apply assign_remaining].
+    - apply Hsame; cbn [exec_top_stmt]; destruct (String.eqb sym "."); try reflexivity;
+        destruct (sym_lookup sym st env ext); reflexivity.
+    - apply Hsame; cbn [exec_top_stmt];
+        (destruct (sym_lookup sym st env ext); [destruct (sym_lookup other st env ext)|]);
+        try (destruct final; reflexivity).
+    - apply Hsame; cbn [exec_top_stmt];
+        (destruct (sym_lookup "__romPos" st env ext); [destruct (sec_lookup sec st senv)|]);
+        try (destruct final; reflexivity).
+    - cbn [exec_top_stmt]. destruct (outsec_vma env senv ext addr sub body st) as [vma|e] eqn:E.
+      + destruct (exec_outsec_ok env senv ext final name addr at_ noload sub body st vma E)
+          as [_ [_ [_ [_ [Hp [Hr [Hd _]]]]]]].
+        destruct (sec_fold_accounted vma (option_map Z.of_N sub) name body (SState 0 false st)) as [P [[new En] D]].
+        fold (outsec_body env senv ext final name sub body vma st) in P, En, D. cbn [s_st] in P, En, D.
+        unfold accounted in *. rewrite Hp, Hr, Hd. split; [exact P|]. split; [exists new; exact En|].
+        exists (fun _ => false). rewrite D, Hnone, app_nil_r. reflexivity.
+      + rewrite (exec_outsec_err _ _ _ _ _ _ _ _ _ _ _ _ E). unfold accounted. cbn [add_err l_placed l_discarded l_remaining].
+        split; [reflexivity|]. split; [exists []; rewrite app_nil_r; reflexivity|].
+        exists (fun _ => false). rewrite Hnone, app_nil_r. reflexivity.
+    - destruct (allow_placed st sect) as [Hr [[pls [Hp [M F]]] [_ [Hd _]]]].
+      unfold accounted. rewrite Hr, Hp, Hd. split; [apply accounted_place; exact M|].
+      split; [eauto|]. exists (fun _ => false). rewrite Hnone, app_nil_r. reflexivity.
+    - destruct (discard st pats wild) as [Hd [Hr [Hp _]]].
+      unfold accounted. rewrite Hr, Hp, Hd. split; [apply accounted_discard|].
+      split; [exists []; rewrite app_nil_r; reflexivity|]. exists (hit pats wild). reflexivity.
+    - apply Hsame; cbn [exec_top_stmt];
+        (destruct (eval_raw env ext st cond) as [v|e]; [destruct (v =? 0); reflexivity|]);
+        destruct e; destruct final; reflexivity.
+  Qed.
+
+  Lemma top_accounted' st s :
+    Permutation (accounted (top st s)) (accounted st) /\
+    (exists new, l_placed (top st s) = (l_placed st ++ new)%list) /\
+    (exists new, l_discarded (top st s) = (l_discarded st ++ new)%list).
+  Proof.
+    destruct (top_accounted st s) as [P [Hp [f Hd]]]. split; [exact P|]. split; [exact Hp|]. eexists. exact Hd.
+  Qed.
+
+  Lemma run_accounted l : forall st,
+    Permutation (accounted (runl l st)) (accounted st) /\
+    (exists new, l_placed (runl l st) = (l_placed st ++ new)%list) /\
+    (exists new, l_discarded (runl l st) = (l_discarded st ++ new)%list).
+  Proof.
+    induction l as [|s l IH]; intro st.
+    - split; [reflexivity|]. split; exists []; rewrite app_nil_r; reflexivity.
+    - rewrite run_cons. destruct (IH (top st s)) as [P1 [[n1 E1] [d1 D1]]].
+      destruct (top_accounted st s) as [P2 [[n2 E2] [f D2]]].
+      split; [eapply Permutation_trans; eassumption|]. split.
+      + exists (n2 ++ n1)%list. rewrite E1, E2, app_assoc. reflexivity.
+      + eexists. rewrite D1, D2, <- app_assoc. reflexivity.
+  Qed.
+
+  Theorem script_accounted script : forall st,
+    Permutation (accounted (exec_script env senv ext final script st)) (accounted st) /\
+    (exists new, l_placed (exec_script env senv ext final script st) = (l_placed st ++ new)%list) /\
+    (exists new, l_discarded (exec_script env senv ext final script st) = (l_discarded st ++ new)%list).
+  Proof.
+    unfold exec_script. induction script as [|s script IH]; intro st.
+    - split; [reflexivity|]. split; exists []; rewrite app_nil_r; reflexivity.
+    - cbn [fold_left].
+      set (st1 := match s with
+                  | SSections body => fold_left (exec_top_stmt env senv ext final) body st
+                  | _ => exec_top_stmt env senv ext final st s
+                  end).
+      assert (H1 : Permutation (accounted st1) (accounted st) /\
+                   (exists new, l_placed st1 = (l_placed st ++ new)%list) /\
+                   (exists new, l_discarded st1 = (l_discarded st ++ new)%list)).
+      { unfold st1. destruct s; try apply top_accounted'. apply run_accounted. }
+      destruct H1 as [P2 [[n2 E2] [d2 D2]]]. destruct (IH st1) as [P1 [[n1 E1] [d1 D1]]].
+      split; [eapply Permutation_trans; eassumption|]. split.
+      + exists (n2 ++ n1)%list. rewrite E1, E2, app_assoc. reflexivity.
+      + exists (d2 ++ d1)%list. rewrite D1, D2, app_assoc. reflexivity.
+  Qed.
+
+  (* what is still unplaced only shrinks *)
+  Theorem script_remaining script : forall st,
+    exists f, l_remaining (exec_script env senv ext final script st) = filter f (l_remaining st).
+  Proof.
+    unfold exec_script. induction script as [|s script IH]; intro st.
+    - exists (fun _ => true). rewrite filter_true. reflexivity.
+    - cbn [fold_left].
+      set (st1 := match s with
+                  | SSections body => fold_left (exec_top_stmt env senv ext final) body st
+                  | _ => exec_top_stmt env senv ext final st s
+                  end).
+      assert (H1 : exists f, l_remaining st1 = filter f (l_remaining st)).
+      { unfold st1. destruct s; try apply top_remaining. apply run_remaining. }
+      destruct H1 as [f1 E1]. destruct (IH st1) as [f2 E2]. rewrite E2, E1, filter_filter. eexists. reflexivity.
+  Qed.
+
+  (* C18_placed_never_discarded: with distinct markers, no input section is both placed and discarded,
+     and none is lost *)
+  Theorem placed_never_discarded script u :
+    NoDup (map u_marker u) ->
+    let st' := exec_script env senv ext final script (init_state u) in
+    Permutation (accounted st') (map u_marker u) /\
+    (forall m, In m (map pl_marker (l_placed st')) -> ~ In m (l_discarded st')) /\
+    (forall m, In m (map pl_marker (l_placed st')) -> ~ In m (map u_marker (l_remaining st'))).
+  Proof.
+    intros Hnd st'. destruct (script_accounted script (init_state u)) as [P _]. fold st' in P.
+    assert (Ei : accounted (init_state u) = map u_marker u) by reflexivity. rewrite Ei in P.
+    split; [exact P|].
+    assert (Hn : NoDup (accounted st')) by (eapply Permutation_NoDup; [symmetry; exact P | exact Hnd]).
+    unfold accounted in Hn. split; intros m Hm Hin;
+      apply (nodup_app_disjoint _ _ Hn m Hm); apply in_or_app; [left|right]; exact Hin.
+  Qed.
+End Link.
